@@ -138,8 +138,7 @@ def gen_fn(rng, name, trait, in_mod=False, allow_known=True, tp="T"):
     if ret.startswith(" -> &'a") and not any("'a" in p for p in params):
         ret = " -> i32"
     if use_lt and use_t and allow_known and rng.random() < 0.12 and any("&'a " + tp in p for p in params):
-        wheres.append(tp + ": 'a")
-        known = known or "F14"
+        wheres.append(tp + ": 'a")       # names a method lifetime: must stay off the trait (F14, repaired)
     quals = ""
     if rng.random() < 0.3:
         quals += "async "
